@@ -9,6 +9,7 @@ from pyvc.driver import Unit
 from pyvc.values import *
 from pyvc import values as V
 from pyvc.interp import LoopSpec
+from pyvc import smt
 from . import aw
 from .async_conn import mk_conn_world, conn_summaries, stop_cond, popped
 
@@ -72,7 +73,8 @@ class StabNonblocking(Unit):
         if a is None:
             return   # guard false on the shorter stream: nothing to preserve
         b = self.one(ctx, True)
-        ctx.ensure("C02 stability: a guard that holds keeps holding when a later announcement has already arrived", z3.BoolVal(b is not None))
+        ctx.ensure("C02 stability: a guard that holds keeps holding when a later announcement has already arrived", z3.BoolVal(b is not None),
+                   hyps=lambda h: not smt.is_nonlinear(h))   # the guard is linear; keep the BUFFER loop's nonlinear facts out of this query
         if b is not None:
             ctx.ensure("C02 stability: same number of messages and same step time, whether or not a later announcement has already arrived", z3.And(a[0] == b[0], a[1] == b[1]))
 
